@@ -126,7 +126,7 @@ struct Vw {
     seed: usize,
 }
 
-const SEED_NAMES: [&str; 3] = ["empty@10", "5-checkpoint-history@16", "balance~i128::MAX@11"];
+const SEED_NAMES: [&str; 4] = ["empty@10", "5-checkpoint-history@16", "balance~i128::MAX@11", "empty@ledger-0 (genesis)"];
 
 struct Inst {
     e: Env,
@@ -312,7 +312,7 @@ impl Vw {
         st.count("present-comparisons", (4 * N + 1) as u64);
         // --- every past ledger: 0 (before anything existed) and base ..= now-1
         let mut n = 0u64;
-        for l in std::iter::once(0).chain(m.base..now) {
+        for l in std::iter::once(0).chain(m.base..now).filter(|l| *l < now) {
             let (pv, pt) = m.at(l);
             for a in 0..N {
                 let r = view(e, &i.c, "get_votes_at_checkpoint", (i.u[a].clone(), l).into_val(e));
@@ -374,7 +374,7 @@ impl Vw {
         let via = self.flavour == Flavour::WrapperSpender;
         let del = |a, b, re| Op::Delegate { a, b, re };
         match (seed, self.flavour.nft()) {
-            (0, _) => vec![],
+            (0, _) | (3, _) => vec![],
             // a history with 5 checkpoints for A and for the total (ledgers 10, 11, 13, 14, 15:
             // one gap), several operations inside one ledger, an undelegated holder for a
             // while, a re-delegation; ends at ledger 16
@@ -455,7 +455,9 @@ impl World for Vw {
 
     fn fresh(&self, _engine_seed: usize) -> (Inst, Model) {
         let seed = self.seed;
-        let e = envx::mk_env(START);
+        // seed 3 starts in the very first ledger: no ledger has ended yet, ledger 0 IS the current one
+        let start = if seed == 3 { 0 } else { START };
+        let e = envx::mk_env(start);
         let u = [Address::generate(&e), Address::generate(&e), Address::generate(&e)];
         let sp = Address::generate(&e);
         let owner = Address::generate(&e);
@@ -465,7 +467,7 @@ impl World for Vw {
             Flavour::Nft | Flavour::NftSeq => e.register(nft_votes::NftVotesTok, ()),
         };
         // spender paths: unlimited approvals that outlive every explored horizon
-        let live = START + 100_000;
+        let live = start + 100_000;
         match self.flavour {
             Flavour::WrapperSpender => {
                 for k in 0..N {
@@ -481,13 +483,13 @@ impl World for Vw {
         }
         let inst = Inst { e, c, u, sp };
         let mut m = Model {
-            base: START - 1,
-            now: START,
+            base: start.saturating_sub(1),
+            now: start,
             units: [0; N],
             deleg: [None; N],
             owner: BTreeMap::new(),
             minted: 0,
-            past: vec![([0; N], 0)],
+            past: if start == 0 { vec![] } else { vec![([0; N], 0)] },
             in_ledger: 0,
         };
         for op in self.seed_ops(seed) {
@@ -632,7 +634,7 @@ fn main() {
     main_with(
         "C13",
         "model_checking",
-        "level-BFS over histories of mint / burn / transfer (incl. self-transfer, full balance; holder and pre-approved-spender paths) / delegate(a->b incl. self and re-delegation) / advance(1|3) on 3 accounts, amounts {1,2,balance} (thorough: +0, balance+1), on the real FungibleVotes wrapper, the fungible-votes example and a NonFungibleVotes wrapper (explicit and sequential ids); seeds {empty at ledger 10, a 5-checkpoint history ending at ledger 16, thorough: balance ~ i128::MAX}; after every accepted operation: balance = voting units, get_votes = sum of units of current delegators, total = sum of units, get_delegate, and get_votes_at_checkpoint / get_total_supply_at_checkpoint for ledger 0 and EVERY ledger start-1..now-1 against a dense end-of-ledger table, queries at now / now+1 / u32::MAX refused; states merged by canonical storage digest + ledger, with the model (incl. its whole past table) as differential oracle at merge; non-trivial = distinct state reached through >=1 accepted operation",
+        "level-BFS over histories of mint / burn / transfer (incl. self-transfer, full balance; holder and pre-approved-spender paths) / delegate(a->b incl. self and re-delegation) / advance(1|3) on 3 accounts, amounts {1,2,balance} (thorough: +0, balance+1), on the real FungibleVotes wrapper, the fungible-votes example and a NonFungibleVotes wrapper (explicit and sequential ids); seeds {empty at ledger 10, empty at ledger 0 (no ledger has ended yet), a 5-checkpoint history ending at ledger 16, thorough: balance ~ i128::MAX}; after every accepted operation: balance = voting units, get_votes = sum of units of current delegators, total = sum of units, get_delegate, and get_votes_at_checkpoint / get_total_supply_at_checkpoint for ledger 0 and EVERY ledger start-1..now-1 against a dense end-of-ledger table, queries at now / now+1 / u32::MAX refused; states merged by canonical storage digest + ledger, with the model (incl. its whole past table) as differential oracle at merge; non-trivial = distinct state reached through >=1 accepted operation",
         |tier: Tier, r: &mut Runner| {
             let th = tier == Tier::Thorough;
             // (flavour, seed, depth, wall cap in s). Measured cost per transition: ~0.7 ms from the
@@ -654,6 +656,9 @@ fn main() {
                     (Nft, 1, 4, 70),
                     (NftSeq, 0, 4, 6),
                     (NftSeq, 1, 3, 8),
+                    (Wrapper, 3, 4, 20),
+                    (Example, 3, 3, 10),
+                    (Nft, 3, 4, 20),
                 ]
             } else {
                 vec![
@@ -666,6 +671,8 @@ fn main() {
                     (Nft, 0, 4, 4),
                     (Nft, 1, 3, 4),
                     (NftSeq, 0, 3, 2),
+                    (Wrapper, 3, 3, 2),
+                    (Nft, 3, 3, 2),
                 ]
             };
             for (flavour, seed, depth, wall) in plan {
